@@ -1,0 +1,45 @@
+// Verification hook (only compiled when TAO_PEGTL_VERIF is defined).
+// Lets an external harness observe every peek_char( offset ) and bump*( count )
+// of the memory and buffer inputs together with the window [current, end) that
+// is available at that moment.  The default (null hook) does nothing.
+
+#ifndef TAO_PEGTL_INTERNAL_VERIF_HOOK_HPP
+#define TAO_PEGTL_INTERNAL_VERIF_HOOK_HPP
+
+#include <cstddef>
+
+#include "../config.hpp"
+
+namespace TAO_PEGTL_NAMESPACE::verif
+{
+   enum class window_event : int
+   {
+      peek,
+      bump
+   };
+
+   using window_hook_t = void ( * )( window_event kind, const char* current, std::size_t amount, const char* end ) noexcept;
+
+   [[nodiscard]] inline window_hook_t& window_hook() noexcept
+   {
+      static window_hook_t hook = nullptr;
+      return hook;
+   }
+
+   inline void on_peek( const char* current, const std::size_t offset, const char* end ) noexcept
+   {
+      if( const auto h = window_hook() ) {
+         h( window_event::peek, current, offset, end );
+      }
+   }
+
+   inline void on_bump( const char* current, const std::size_t count, const char* end ) noexcept
+   {
+      if( const auto h = window_hook() ) {
+         h( window_event::bump, current, count, end );
+      }
+   }
+
+}  // namespace TAO_PEGTL_NAMESPACE::verif
+
+#endif
